@@ -563,6 +563,70 @@ def w_form(where: int, top: int, alt: int, hk: int, fb: int) -> str:
     return _form_case(rt.sel(where, 8), rt.of([0, 1, 2], top), rt.sel(alt, 5), rt.sel(hk, 7), rt.of([0, 3], fb))
 
 
+TD_KINDS = ['dir-on-the-entry-volume', 'dir-on-another-volume', 'link-on-root-to-dir-on-v', 'link-on-v-to-dir-on-root', 'link-on-the-same-volume', 'relative-spelling']
+TD_ENTRY = ['/v/d/x', '/r/x', '/v/x']
+TD_NAMES = ['x', 'a b', '%41', 'caf\u00e9']
+
+
+def _tdopt_case(kind, entry, nm):
+    """trash-put --trash-dir T, then trash-list --trash-dir T and trash-restore --trash-dir T: whatever T is (a directory,
+    a symbolic link crossing volumes either way), the readers decode the written Path back to the entry's location"""
+    with rt.untraced():
+        k = TD_KINDS[kind]
+        rt.begin(('tdopt', k, TD_ENTRY[entry], TD_NAMES[nm]))
+        src = TD_ENTRY[entry][:-1] + TD_NAMES[nm]
+        nodes = [W.d('/h'), W.d('/v/d'), W.d('/r'), W.f(src, 'DATA', 0o644, 1000)]
+        evol = '/v' if src.startswith('/v/') else '/'
+        if k == 'dir-on-the-entry-volume':
+            T = (evol.rstrip('/') + '/td')
+            nodes.append(W.d(T, 0o700))
+        elif k == 'dir-on-another-volume':
+            T = '/td' if evol == '/v' else '/v/td'
+            nodes.append(W.d(T, 0o700))
+        elif k == 'link-on-root-to-dir-on-v':
+            T = '/r/lt'
+            nodes += [W.d('/v/realtd', 0o700), W.l(T, '/v/realtd', 900)]
+        elif k == 'link-on-v-to-dir-on-root':
+            T = '/v/lt'
+            nodes += [W.d('/r/realtd', 0o700), W.l(T, '/r/realtd', 900)]
+        elif k == 'link-on-the-same-volume':
+            T = evol.rstrip('/') + '/lt'
+            nodes += [W.d(evol.rstrip('/') + '/realtd', 0o700), W.l(T, 'realtd', 900)]
+        else:
+            T = '../' + evol.strip('/') + ('/' if evol != '/' else '') + 'td' if evol != '/' else '../td'
+            nodes.append(W.d(evol.rstrip('/') + '/td', 0o700))
+        world = W.W(mounts=K.MOUNTS, cwd='/h', nodes=nodes)
+        e = scen.env()
+        label = '%s:entry=%s' % (k, TD_ENTRY[entry])
+        m, res = scen.run_model(world, [C('put', ['--trash-dir', T, '--home-fallback', '--', src], dict(e, TRASH_ENABLE_HOME_FALLBACK='1'), cwd='/h', now='2021-03-04T05:06:07'), {'snap': '/'},
+                                        C('list', ['--trash-dir', T], e, cwd='/h'),
+                                        C('restore', ['--trash-dir', T, '/'], e, stdin=[''], cwd='/h')])
+        rp, after, rl, rr = res
+        for r_ in (rp, rl, rr):
+            if r_['exc']:
+                return rt.fail('C03:traceback:%s:%s' % (r_['exc'].split(':')[0], label), r_['exc'])
+        if scen.sub(after, src) is not None:
+            if rp['exit'] == 0:
+                return rt.fail('C03:tdopt-put-claims-success:' + label, rp['err'][-200:])
+            return rt.ok()  # refused (e.g. another volume): nothing was written, nothing to decode
+        want = '2021-03-04 05:06:07 ' + src
+        got = rl['out'][:-1] if rl['out'].endswith(chr(10)) else rl['out']
+        if got != want:
+            return rt.fail('C03:list-does-not-decode-to-the-location:' + label, 'trash-list --trash-dir %s prints %r, the entry was %r' % (T, got, src))
+        lst = K.restore_listing(rr['out'])
+        if len(lst) != 1 or lst[0][2] != src or lst[0][1] != '2021-03-04 05:06:07':
+            return rt.fail('C03:restore-does-not-decode-to-the-location:' + label, 'trash-restore --trash-dir %s offers %r, the entry was %r' % (T, lst, src))
+        return rt.ok()
+
+
+def w_tdopt(kind: int, entry: int, nm: int) -> str:
+    """
+    pre: 0 <= kind < 6 and 0 <= entry < 3 and 0 <= nm < 4
+    post: _ == ''
+    """
+    return _tdopt_case(rt.sel(kind, 6), rt.sel(entry, 3), rt.sel(nm, 4))
+
+
 def w_bytes(i: int, layout: int, depth: int) -> str:
     """
     pre: PARTITION is None or layout == PARTITION
@@ -602,5 +666,9 @@ def obligations(tier):
         CH('W_path_rule_after_candidate_fallthrough', MOD, 'w_fall', timeout=600, engine='W', regime='selector',
            encodes=K.PUT_FUNCS, stubs=K.STUBS + ['persistent errno on one directory'],
            bounds='3 fall-through directions (home->.Trash-uid, .Trash-uid->home fallback, .Trash/uid->.Trash-uid) x 4 errnos x 6 kinds'),
+        CH('W_explicit_trash_dir_write_then_read', MOD, 'w_tdopt', timeout=600, engine='W', regime='selector',
+           encodes=K.PUT_FUNCS + K.LIST_FUNCS + K.RESTORE_FUNCS, stubs=K.STUBS,
+           bounds='trash-put --trash-dir T then trash-list / trash-restore --trash-dir T: 6 spellings of T (directory on the same / another volume, symbolic link crossing volumes either way, '
+                  'link on one volume, relative spelling) x 3 entry locations x 4 names'),
     ]
     return obs
